@@ -1,98 +1,9 @@
 (* JsonSemBool.v -- executable versions of the fragment's membership test and meaning (fragb, semb), proved to agree
    with frag / sem; extracted and compared with the reference validator by the C06 check, so that the specification
    the theorems speak about is itself tied to Draft 2020-12. *)
-From Fences Require Import Normalize NormShape JsonValid JsonGen JsonEnum JsonSem JsonSemDnf.
+From Fences Require Import Normalize NormShape JsonValid JsonGen JsonEnum JsonSem JsonSemAlts JsonSemDnf.
 From Coq Require Import String ZArith Lia.
 Local Open Scope list_scope.
-
-Lemma kvalidb_spec k v x : kvalidb k v x = true <-> kvalid k v x.
-Proof.
-  unfold kvalidb, kvalid.
-  destruct (iskw k "minimum").
-  { destruct v, x; try (split; [intros _ ? ? E1 E2; discriminate|reflexivity]).
-    rewrite Z.leb_le. split; [intros H ? ? E1 E2; inversion E1; inversion E2; subst; auto|intros H; apply H; reflexivity]. }
-  destruct (iskw k "maximum").
-  { destruct v, x; try (split; [intros _ ? ? E1 E2; discriminate|reflexivity]).
-    rewrite Z.leb_le. split; [intros H ? ? E1 E2; inversion E1; inversion E2; subst; auto|intros H; apply H; reflexivity]. }
-  destruct (iskw k "exclusiveMinimum").
-  { destruct v, x; try (split; [intros _ ? ? E1 E2; discriminate|reflexivity]).
-    rewrite Z.ltb_lt. split; [intros H ? ? E1 E2; inversion E1; inversion E2; subst; auto|intros H; apply H; reflexivity]. }
-  destruct (iskw k "exclusiveMaximum").
-  { destruct v, x; try (split; [intros _ ? ? E1 E2; discriminate|reflexivity]).
-    rewrite Z.ltb_lt. split; [intros H ? ? E1 E2; inversion E1; inversion E2; subst; auto|intros H; apply H; reflexivity]. }
-  destruct (iskw k "minLength").
-  { destruct v, x; try (split; [intros _ ? ? E1 E2; discriminate|reflexivity]).
-    rewrite Z.leb_le. split; [intros H ? ? E1 E2; inversion E1; inversion E2; subst; auto|intros H; apply H; reflexivity]. }
-  destruct (iskw k "maxLength").
-  { destruct v, x; try (split; [intros _ ? ? E1 E2; discriminate|reflexivity]).
-    rewrite Z.leb_le. split; [intros H ? ? E1 E2; inversion E1; inversion E2; subst; auto|intros H; apply H; reflexivity]. }
-  destruct (iskw k "minItems").
-  { destruct v, x; try (split; [intros _ ? ? E1 E2; discriminate|reflexivity]).
-    rewrite Z.leb_le. split; [intros H ? ? E1 E2; inversion E1; inversion E2; subst; auto|intros H; apply H; reflexivity]. }
-  destruct (iskw k "maxItems").
-  { destruct v, x; try (split; [intros _ ? ? E1 E2; discriminate|reflexivity]).
-    rewrite Z.leb_le. split; [intros H ? ? E1 E2; inversion E1; inversion E2; subst; auto|intros H; apply H; reflexivity]. }
-  destruct (iskw k "type").
-  { rewrite existsb_exists. split.
-    - intros (t & Ht & E). apply str_eqb_true in E. subst. exact Ht.
-    - intros H. exists (jtype x). split; [exact H|apply str_eqb_true; reflexivity]. }
-  destruct (iskw k "enum").
-  { destruct v; try (split; [discriminate|intros (l0 & E & _); discriminate]).
-    split; [intros H; eauto|intros (l0 & E & M); inversion E; subst; exact M]. }
-  destruct (iskw k "NOT_enum").
-  { destruct v; try (split; [intros _ ? E; discriminate|reflexivity]).
-    rewrite negb_true_iff. split; [intros H l0 E; inversion E; subst; exact H|intros H; apply H; reflexivity]. }
-  tauto.
-Qed.
-
-Lemma smem_In k l : smem k l = true <-> In k l.
-Proof.
-  induction l as [|y l IH]; cbn [smem In]; [split; [discriminate|tauto]|].
-  rewrite orb_true_iff, IH, str_eqb_true. tauto.
-Qed.
-
-Theorem semb_spec x : forall f s, frag f s -> (semb f x s = true <-> sem f x s).
-Proof.
-  induction f as [|f IH]; intros s Fs; [destruct Fs|].
-  destruct s as [|b|z|s0|l0|d]; try (exfalso; exact Fs).
-  - cbn [semb sem]. tauto.
-  - destruct Fs as [ND Hk]. cbn [semb sem].
-    assert (KA : forall v, dget (kw "anyOf") d = Some v -> exists l, v = JArr l /\ forall s', In s' l -> frag f s').
-    { intros v G. destruct (Hk _ _ G) as [[I _]|[[X _]|[[_ R0]|[X _]]]];
-        [exfalso; cbv in I; intuition discriminate|cbv in X; discriminate X|exact R0|cbv in X; discriminate X]. }
-    assert (KL : forall v, dget (kw "allOf") d = Some v -> exists l, v = JArr l /\ forall s', In s' l -> frag f s').
-    { intros v G. destruct (Hk _ _ G) as [[I _]|[[_ R0]|[[X _]|[X _]]]];
-        [exfalso; cbv in I; intuition discriminate|exact R0|cbv in X; discriminate X|cbv in X; discriminate X]. }
-    assert (KN : forall v, dget (kw "not") d = Some v -> frag f v).
-    { intros v G. destruct (Hk _ _ G) as [[I _]|[[X _]|[[X _]|[_ R0]]]];
-        [exfalso; cbv in I; intuition discriminate|cbv in X; discriminate X|cbv in X; discriminate X|exact R0]. }
-    rewrite !andb_true_iff.
-    assert (E1 : forallb (fun '(k, v) => if smem k SK then kvalidb k v x else true) d = true <->
-                 (forall k v, dget k d = Some v -> In k SK -> kvalid k v x)).
-    { rewrite forallb_forall. split.
-      - intros H k v G I. specialize (H (k, v) (proj2 (in_dget d ND k v) G)). cbv beta iota in H.
-        rewrite (proj2 (smem_In k SK) I) in H. apply kvalidb_spec. exact H.
-      - intros H [k v] Hin. destruct (smem k SK) eqn:M; auto. apply kvalidb_spec. apply H; [apply (in_dget d ND); exact Hin|apply smem_In; exact M]. }
-    assert (E2 : match dget (kw "allOf") d with Some (JArr l) => forallb (semb f x) l | _ => true end = true <->
-                 (forall l, dget (kw "allOf") d = Some (JArr l) -> forall s', In s' l -> sem f x s')).
-    { destruct (dget (kw "allOf") d) as [v|] eqn:G; [|split; [intros _ l E; discriminate|reflexivity]].
-      destruct (KL v eq_refl) as (l & -> & Fl). rewrite forallb_forall. split.
-      - intros H l' E s' Hs. inversion E; subst. apply IH; auto.
-      - intros H s' Hs. apply IH; auto. apply (H l eq_refl). exact Hs. }
-    assert (E3 : match dget (kw "anyOf") d with Some (JArr l) => existsb (semb f x) l | _ => true end = true <->
-                 (forall l, dget (kw "anyOf") d = Some (JArr l) -> exists s', In s' l /\ sem f x s')).
-    { destruct (dget (kw "anyOf") d) as [v|] eqn:G; [|split; [intros _ l E; discriminate|reflexivity]].
-      destruct (KA v eq_refl) as (l & -> & Fl). rewrite existsb_exists. split.
-      - intros (s' & Hs & V) l' E. inversion E; subst. exists s'. split; auto. apply IH; auto.
-      - intros H. destruct (H l eq_refl) as (s' & Hs & V). exists s'. split; auto. apply IH; auto. }
-    assert (E4 : match dget (kw "not") d with Some n => negb (semb f x n) | None => true end = true <->
-                 (forall n, dget (kw "not") d = Some n -> ~ sem f x n)).
-    { destruct (dget (kw "not") d) as [v|] eqn:G; [|split; [intros _ n E; discriminate|reflexivity]].
-      rewrite negb_true_iff. split.
-      - intros H n E V. inversion E; subst. apply (IH n (KN n eq_refl)) in V. congruence.
-      - intros H. destruct (semb f x v) eqn:B; auto. exfalso. apply (H v eq_refl). apply IH; auto. }
-    rewrite E1, E2, E3, E4. tauto.
-Qed.
 
 (* ---------- membership in the fragment, decided ---------- *)
 Lemma nodupb_sound l : nodupb l = true -> NoDup l.
@@ -128,24 +39,20 @@ Proof.
   split; [exact N|]. intros k v G. rewrite forallb_forall in F.
   specialize (F (k, v) (proj2 (in_dget d N k v) G)). cbv beta iota in F.
   destruct (smem k SK) eqn:M.
-  - left. apply smem_In in M. destruct (wtvb_sound k v M F). auto.
-  - right. destruct (iskw k "allOf") eqn:E1.
-    + left. apply str_eqb_true in E1. split; [exact E1|]. destruct v; try discriminate. cbn [orb] in F.
-      eexists. split; [reflexivity|]. intros s' Hs. apply IH. rewrite forallb_forall in F. auto.
-    + destruct (iskw k "anyOf") eqn:E2; cbn [orb] in F.
-      * right. left. apply str_eqb_true in E2. split; [exact E2|]. destruct v; try discriminate.
-        eexists. split; [reflexivity|]. intros s' Hs. apply IH. rewrite forallb_forall in F. auto.
-      * destruct (iskw k "not") eqn:E3; [|discriminate]. right. right. apply str_eqb_true in E3. split; [exact E3|]. apply IH. exact F.
+  - apply smem_In in M. exact (wtvb_sound k v M F).
+  - destruct (smem k LK).
+    + destruct v; try discriminate. eexists. split; [reflexivity|]. intros s' Hs. apply IH. rewrite forallb_forall in F. auto.
+    + destruct (smem k UK); [apply IH; exact F|]. unfold iskw in F. destruct (str_eqb k (kw "const")); [exact F|discriminate].
 Qed.
 
 (* the statement in executable terms: for every document the checker admits, the any-of list normalize() returns is
    satisfied by exactly the instances on which the evaluator says "accepted" *)
 From Fences Require Import JsonSemNorm JsonSemTop.
-Theorem normalize_fragment_exec SV fuel m d n : fragb m (JObj d) = true ->
+Theorem normalize_fragment_exec SV fuel m d n : fix_lone_if SV = true -> fragb m (JObj d) = true ->
   normalize SV (mkNConfig true default_discard false) fuel (JObj d) = Ok n ->
   exists L, any_of n = Ok (map JObj L) /\ forall x, alts_valid L x <-> semb m x (JObj d) = true.
 Proof.
-  intros Fb H. pose proof (fragb_sound _ _ Fb) as Fs.
-  destruct (normalize_fragment_default SV fuel m d n Fs H) as (L & A & _ & E).
+  intros FL Fb H. pose proof (fragb_sound _ _ Fb) as Fs.
+  destruct (normalize_fragment_default SV fuel m d n FL Fs H) as (L & A & _ & E).
   exists L. split; [exact A|]. intros x. rewrite (E x). symmetry. apply semb_spec. exact Fs.
 Qed.
